@@ -504,6 +504,33 @@ mod m_blind_pool_managed {
 }
 pub use m_blind_pool_managed::*;
 
+mod m_pinned_raw_builder {
+    use super::*;
+//@ extract file packages/infinity_pool/src/builders/pinned_raw_builder.rs
+//@ end
+}
+pub use m_pinned_raw_builder::*;
+mod m_pinned_pool_raw {
+    use super::*;
+//@ extract file packages/infinity_pool/src/pinned/pool_raw.rs
+//@ end
+}
+pub use m_pinned_pool_raw::*;
+mod m_pinned_pool_local {
+    use super::*;
+//@ extract file packages/infinity_pool/src/pinned/pool_local.rs
+//@ end
+}
+pub use m_pinned_pool_local::*;
+mod m_pinned_pool_managed {
+    use super::*;
+//@ extract file packages/infinity_pool/src/pinned/pool_managed.rs
+//@ rewrite "use std::panic::{AssertUnwindSafe, catch_unwind, resume_unwind};" "use std::panic::AssertUnwindSafe;"
+//@ rewrite "use std::sync::{Arc, Mutex};" "use std::sync::Arc;"
+//@ end
+}
+pub use m_pinned_pool_managed::*;
+
 // ------------------------------------------------------------------------------------------------------------------
 // harnesses
 static mut DROPS: [u8; 4] = [0; 4];
@@ -660,6 +687,56 @@ mod harness {
         release_ways!(BlindPool::new(), BlindPooledMut<dyn Speak>);
     }
 
+    #[kani::proof]
+    #[kani::unwind(6)]
+    fn pinned_local_handles_release_exactly_once() {
+        release_ways!(LocalPinnedPool::<Counted>::new(), LocalPooledMut<dyn Speak>);
+    }
+
+    #[kani::proof]
+    #[kani::unwind(6)]
+    fn pinned_managed_handles_release_exactly_once() {
+        release_ways!(PinnedPool::<Counted>::new(), PooledMut<dyn Speak>);
+    }
+
+    /// RawPinnedPool<T> forwards to an opaque pool of exactly T's layout; remove / remove_unpin reach it once.
+    #[kani::proof]
+    #[kani::unwind(6)]
+    fn raw_pinned_pool_forwards() {
+        let mut pool = RawPinnedPool::<Counted>::new();
+        assert!(pool.is_empty() && pool.len() == 0);
+        let a = pool.insert(Counted { id: 0, pad: 1 });
+        // SAFETY: the closure initialises the slot.
+        let b = unsafe { pool.insert_with(|slot: &mut std::mem::MaybeUninit<Counted>| { slot.write(Counted { id: 1, pad: 2 }); }) };
+        assert!(pool.len() == 2 && pool.capacity() >= 2 && !pool.is_empty());
+        let (pa, pb) = (a.ptr().as_ptr() as usize, b.ptr().as_ptr() as usize);
+        assert!(pa != pb);
+        let mut it = pool.iter();
+        assert!(it.len() == 2);
+        let x = it.next().expect("two live objects").as_ptr() as usize;
+        let y = it.next().expect("two live objects").as_ptr() as usize;
+        assert!(it.next().is_none());
+        assert!((x == pa && y == pb) || (x == pb && y == pa), "iteration yields exactly the live objects");
+        pool.reserve(3);
+        pool.shrink_to_fit();
+        // SAFETY: a and b are live and removed once each.
+        unsafe {
+            if kani::any() {
+                pool.remove(a);
+                assert!(drops(0) == 1 && drops(1) == 0 && pool.len() == 1);
+                let v = pool.remove_unpin(b);
+                assert!(v.pad == 2 && drops(1) == 0);
+            } else {
+                let v = pool.remove_unpin(a.into_shared());
+                assert!(v.pad == 1 && drops(0) == 0 && pool.len() == 1);
+                drop(v);
+                pool.remove(b.erase());
+                assert!(drops(1) == 1);
+            }
+        }
+        assert!(pool.is_empty());
+    }
+
     /// Blind pools route by layout: an object goes into an inner pool of exactly its own layout (asserted by the
     /// callee contract), same-layout types share a pool, different layouts do not, and every handle finds its way
     /// back to the pool that issued it whatever the order of release.
@@ -743,11 +820,36 @@ mod harness {
     #[kani::proof]
     #[kani::unwind(6)]
     fn managed_pools_release_lock_before_resuming_panic() {
-        // SAFETY: single-threaded harness.
-        unsafe { GHOST_INJECT_PANICS = true };
         let which: u8 = kani::any();
         kani::assume(which < 4);
+        release_lock_case(which);
+        kani::cover!(which == 3);
+    }
+    #[kani::proof]
+    #[kani::unwind(6)]
+    fn pinned_pool_releases_lock_before_resuming_panic() {
+        let which: u8 = kani::any();
+        kani::assume(which == 4 || which == 5);
+        release_lock_case(which);
+        kani::cover!(which == 5);
+    }
+    fn release_lock_case(which: u8) {
+        // SAFETY: single-threaded harness.
+        unsafe { GHOST_INJECT_PANICS = true };
         match which {
+            4 => {
+                let pool = PinnedPool::<Counted>::new();
+                let keep = pool.insert(Counted { id: 1, pad: 9 });
+                // SAFETY: the closure initialises the slot.
+                let h = unsafe { pool.insert_with(|slot: &mut std::mem::MaybeUninit<Counted>| { slot.write(Counted { id: 0, pad: 5 }); }) };
+                assert!(pool.len() == 2 && h.pad == 5 && keep.pad == 9);
+            }
+            5 => {
+                let pool = PinnedPool::<Counted>::new();
+                let keep = pool.insert(Counted { id: 1, pad: 9 });
+                let n = pool.with_iter(|it| it.count());
+                assert!(n == 1 && pool.len() == 1 && keep.pad == 9);
+            }
             0 => {
                 let pool = OpaquePool::with_layout_of::<Counted>();
                 let keep = pool.insert(Counted { id: 1, pad: 9 });
@@ -778,7 +880,6 @@ mod harness {
         }
         // SAFETY: single-threaded harness.
         assert!(unsafe { GHOST_LOCKS_HELD } == 0, "no lock is left held after the operation returns");
-        kani::cover!(which == 3);
     }
 
     // ---- C04, object graphs: a pooled object that owns a handle to another object of the same pool ----
